@@ -288,6 +288,13 @@ class C01(Check):
                     # construction
                     if k == "leaf":
                         vals = op[1]
+                        if len(vals) >= 2 and len({b0 - a0 for a0, b0 in zip(vals, vals[1:])}) == 1 and n % 3 == 0:
+                            # an arithmetic progression handed over as a range object, ascending or descending
+                            st = vals[1] - vals[0]
+                            vals_r = range(vals[0], vals[-1] + 1, st) if n % 2 else range(vals[-1], vals[0] - 1, -st)
+                            b = BLS(vals_r)
+                            real.append(b); ref.append(B.Leaf(op[1])); depth.append(0); out.stats["constructed"] += 1; out.stats["range_leaves"] += 1
+                            continue
                         sel = n % 6  # BitLengthSet(values: Iterable[int] | int): a set, list, tuple, frozenset, generator or iterator
                         b = BLS(vals[0]) if len(op) > 2 and op[2] == "int" else BLS(set(vals) if sel == 0 else list(vals) + vals[:1] if sel == 1 else tuple(vals) if sel == 2 else frozenset(vals) if sel == 3 else (x for x in vals) if sel == 4 else iter(list(vals)))
                         node = B.Leaf(op[1])
@@ -299,7 +306,16 @@ class C01(Check):
                             # concatenate() / unite() take an Iterable: a list, a tuple, or something that can be consumed once
                             sel = n % 6
                             return a if sel < 2 else tuple(a) if sel == 2 else (x for x in a) if sel == 3 else iter(a) if sel == 4 else map(lambda x: x, a)
-                        if k == "cat":
+                        if k in ("cat", "uni") and len(args) == 2 and isinstance(args[0], BLS) and n % 5 == 4:
+                            # augmented assignment on an ALIAS of the left operand: `c = a; c += x` must leave `a` as it was
+                            c0 = args[0]
+                            if k == "cat":
+                                c0 += args[1]
+                            else:
+                                c0 |= args[1]
+                            b = c0
+                            out.stats["augmented_assignments"] += 1
+                        elif k == "cat":
                             b = BLS.concatenate(it(args)) if len(args) != 2 or n % 2 else (args[0] + args[1] if isinstance(args[0], BLS) else BLS.concatenate(it(args)))
                         elif k == "radd":
                             b = args[0] + args[1]  # literal + BitLengthSet -> __radd__
